@@ -170,12 +170,13 @@ Qed.
 
 Lemma C07_request_first_match_raw_proof rc d bm q :
   wf_rconfig rc = true -> dns_new_raw rc = Ok d ->
+  (q_name q = ""%string -> q_regex_hits q = []) ->
   (q_name q <> ""%string -> oracle_agrees (d_req d) bm q) ->
   exists v, request_route_raw rc q = Some v /\ request_select d bm q = Ok v.
 Proof.
-  intros H Hd Hor. destruct (wf_rconfig_split rc H) as [Hs Hc].
+  intros H Hd Hnohit Hor. destruct (wf_rconfig_split rc H) as [Hs Hc].
   unfold dns_new_raw in Hd. rewrite Hs in Hd.
   destruct (DnsRequestOutboundIndex_UserDefinedMax <? N.of_nat (List.length (rc_upstreams rc))); [discriminate|].
-  destruct (request_select_refines _ d bm q Hc Hd Hor) as [v [Hv Hsel]]. exists v. split; [|exact Hsel].
+  destruct (request_select_refines _ d bm q Hc Hd Hnohit Hor) as [v [Hv Hsel]]. exists v. split; [|exact Hsel].
   unfold request_route_raw. rewrite C07_split_preserves_first_match_proof. exact Hv.
 Qed.
